@@ -56,6 +56,9 @@ type Monitors struct {
 	storedIDs    map[string]bool // payload ids ever stored on any server
 	taint        string
 	lease        *leaseState
+	convFlagged  bool
+	convReached  bool
+	isSeen       map[string]*isRec
 	restores     []*restoreRec
 	restoreFloor map[[2]int]uint64
 	floorByData  map[string]uint64
@@ -69,7 +72,7 @@ type Monitors struct {
 func newMonitors(w *World) *Monitors {
 	return &Monitors{w: w, agreed: map[uint64]fact{}, leaders: map[uint64]int{}, senders: map[uint64]int{}, streams: map[[2]int]*fsmStream{},
 		lastCommit: map[[2]int]uint64{}, lastTerm: map[int]uint64{}, grants: map[grantKey]string{}, notify: map[[2]int][]bool{}, leadGains: map[[2]int]int{},
-		storedIDs: map[string]bool{}, transitions: map[[2]int]int{}, wasLeader: map[[2]int]bool{}, leaderAt: map[uint64]leaderRec{}, restoreFloor: map[[2]int]uint64{}, floorByData: map[string]uint64{}}
+		storedIDs: map[string]bool{}, transitions: map[[2]int]int{}, wasLeader: map[[2]int]bool{}, leaderAt: map[uint64]leaderRec{}, restoreFloor: map[[2]int]uint64{}, floorByData: map[string]uint64{}, isSeen: map[string]*isRec{}}
 }
 
 // rootCause records a violation that is the origin of others: every later
@@ -328,8 +331,12 @@ func (m *Monitors) OnSend(msg *Msg) {
 		m.senders[t] = msg.From
 	}
 }
-func (m *Monitors) OnDeliver(msg *Msg, inc int, discard bool) {}
-func (m *Monitors) OnHandled(msg *Msg)                        {}
+func (m *Monitors) OnDeliver(msg *Msg, inc int, discard bool) {
+	if !discard {
+		m.convOnDeliver(msg)
+	}
+}
+func (m *Monitors) OnHandled(msg *Msg) {}
 
 func (m *Monitors) OnReply(msg *Msg) {
 	w := m.w
@@ -668,6 +675,7 @@ func (m *Monitors) AtQuiescent() {
 	m.checkLogs()
 	m.timedChecks()
 	m.notifyChecks()
+	m.convChecks()
 }
 
 // checkLeaderCommit: C05 at a leader's report of commit index ci.
